@@ -497,7 +497,7 @@ Qed.
 
 (* OnUpdate for a tier key *)
 Lemma srep_tier_update : forall v s P T n val,
-  srep v s P T -> srep v (sorter_tier_update s n val) P (updT T n val).
+  srep v s P T -> srep v (sorter_tier_update v s n val) P (updT T n val).
 Proof.
   intros v s P T n val R. unfold sorter_tier_update. destruct val as [tv|].
   - pose proof (srep_set_tier v s P T n true (tv_order tv) (tv_action tv) (Some tv) R) as H.
@@ -507,7 +507,7 @@ Proof.
   - destruct (tl s n) as [old|] eqn:E.
     + destruct (ti_pols old) eqn:EP.
       * apply srep_drop_tier; auto.
-      * pose proof (srep_set_tier v s P T n false None (ti_action old) None R) as H.
+      * pose proof (srep_set_tier v s P T n false None (if v_resetact v then 0%N else ti_action old) None R) as H.
         cbv zeta in H. rewrite E in H. rewrite EP in H. rewrite (sr_name _ _ _ _ R n old E). apply H. simpl. auto.
     + eapply srep_ext; [reflexivity | apply updT_same; eapply T_none_of_no_tier; eauto | exact R].
 Qed.
